@@ -32,7 +32,7 @@ var httpStatusConst = map[string]int{
 	"StatusFailedDependency": 424, "StatusTooEarly": 425, "StatusUpgradeRequired": 426,
 	"StatusPreconditionRequired": 428, "StatusTooManyRequests": 429, "StatusRequestHeaderFieldsTooLarge": 431,
 	"StatusUnavailableForLegalReasons": 451,
-	"StatusInternalServerError": 500, "StatusNotImplemented": 501, "StatusBadGateway": 502,
+	"StatusInternalServerError":        500, "StatusNotImplemented": 501, "StatusBadGateway": 502,
 	"StatusServiceUnavailable": 503, "StatusGatewayTimeout": 504, "StatusHTTPVersionNotSupported": 505,
 	"StatusVariantAlsoNegotiates": 506, "StatusInsufficientStorage": 507, "StatusLoopDetected": 508,
 	"StatusNotExtended": 510, "StatusNetworkAuthenticationRequired": 511,
